@@ -1105,15 +1105,16 @@ Error CodeHolder::flatten() noexcept {
     uint64_t real_size = section->real_size();
     if (real_size) {
       offset = Support::align_up(offset, section->alignment());
+
+      // Make sure the previous non-empty section extends a bit to cover the alignment. Empty sections
+      // must stay empty, otherwise the padding would become their content and change `code_size()`.
+      if (prev) {
+        prev->_virtual_size = offset - prev->_offset;
+      }
+      prev = section;
     }
+
     section->set_offset(offset);
-
-    // Make sure the previous section extends a bit to cover the alignment.
-    if (prev) {
-      prev->_virtual_size = offset - prev->_offset;
-    }
-
-    prev = section;
     offset += real_size;
   }
 
